@@ -25,6 +25,7 @@ import Apko.Proofs.Lemmas.FormatsPasswd
 import Apko.Proofs.Lemmas.FormatsIdbSample
 import Apko.Proofs.Lemmas.FormatsCodec
 import Apko.Proofs.Lemmas.FormatsIdbTotal
+import Apko.Proofs.Lemmas.FormatsSortComplete
 
 namespace Apko.C16
 open Apko Apko.Formats
@@ -414,5 +415,41 @@ theorem idb_read_write_total (c : Codec) (hc : c.Lawful) (ips : List IPkg) (hwf 
   exact ⟨t, ht, idb_read_write c hc ips t ht hwf⟩
 
 example : sampleFiles.all csumOK = true := by decide
+
+/-! ## which headers the installed db lists (the exact extent of F16h / F07a) -/
+
+/-- `sortTarHeaders_complete`: on a tree-shaped header list (`treeOK`: clean relative names, pairwise
+distinct, every non-top-level record has a *directory* record for its parent) `sortTarHeaders`
+terminates and emits exactly the records that are not top-level, plus the top-level directories that
+have a child; i.e. precisely the top-level files and the childless top-level directories are missing
+from the installed db. -/
+theorem sortTarHeaders_complete (hs : List FileRec) (ht : treeOK hs = true) :
+    ∃ out, sortHeaders hs = some out ∧
+      ∀ x, x ∈ out ↔ (x ∈ hs ∧ (pathDir x.name ≠ ['.'] ∨ (x.isDir = true ∧ ∃ y ∈ hs, pathDir y.name = x.name))) := by
+  obtain ⟨out, h1, h2⟩ := sortHeaders_mem hs (treeOK_spec hs ht)
+  exact ⟨out, h1, fun x => by rw [h2 x, emitted_iff]⟩
+
+/-- consequently every non-top-level header of a well-formed package with a tree-shaped header list is
+read back from the installed db (path, kind, permission bits, owner), and nothing else is -/
+theorem idb_files_complete (c : Codec) (hc : c.Lawful) (ip : IPkg) (t : Text) (htree : treeOK ip.files = true)
+    (hr : renderInstalled c idbRows ip = .ok t) (hwf : WFIPkg ip = true)
+    (hfit : linesFit defaultTokenMax (rawLines t) = true) :
+    ∃ fs, parseInstalled c idbCases idbGuarded t = .ok [⟨idbProj ip.pkg, fs⟩] ∧
+      ∀ g, g ∈ fs ↔ ∃ f ∈ ip.files, emitted ip.files f = true ∧ g = fileProj f := by
+  obtain ⟨out, h1, h2⟩ := sortHeaders_mem ip.files (treeOK_spec ip.files htree)
+  have h := idb_read_write c hc [ip] t (by simp [renderInstalledAll, hr, Res.bind]) (by simpa using hwf) hfit
+  refine ⟨out.map fileProj, by simpa [readBack, h1] using h, ?_⟩
+  intro g
+  simp only [List.mem_map, h2]
+  constructor
+  · rintro ⟨f, ⟨hf, he⟩, rfl⟩; exact ⟨f, hf, he, rfl⟩
+  · rintro ⟨f, hf, he, rfl⟩; exact ⟨f, ⟨hf, he⟩, rfl⟩
+
+example : treeOK sampleFiles = true := by decide
+/-- a tree with a top-level file and a childless top-level directory: both are `emitted = false` -/
+example : treeOK (⟨"README".toList, false, 0o644, 0, 0, []⟩ :: ⟨"tmp".toList, true, 0o1777, 0, 0, []⟩ :: sampleFiles) = true ∧
+    (⟨"README".toList, false, 0o644, 0, 0, []⟩ :: ⟨"tmp".toList, true, 0o1777, 0, 0, []⟩ :: sampleFiles).filter
+      (fun x => !emitted (⟨"README".toList, false, 0o644, 0, 0, []⟩ :: ⟨"tmp".toList, true, 0o1777, 0, 0, []⟩ :: sampleFiles) x)
+      = [⟨"README".toList, false, 0o644, 0, 0, []⟩, ⟨"tmp".toList, true, 0o1777, 0, 0, []⟩] := by decide
 
 end Apko.C16
